@@ -92,6 +92,7 @@ const HOSTS = {
   foo:       { open: 'foo', kind: 'component', type: () => 'resolved:foo' },
   iicon:     { open: 'i-icon', kind: 'component', type: () => 'resolved:i-icon' },
   iiconPat:  { open: 'i-icon', kind: 'element', pattern: true, type: () => 'tag:i-icon' },
+  iiconPat2: { open: 'i-icon', kind: 'element', pattern: 2, type: () => 'tag:i-icon' },
   Comp:      { open: 'Comp', kind: 'component', type: () => 'comp:Comp' },
   Imported:  { open: 'Imp', kind: 'component', type: () => 'comp:Imp', imports: "import { Imp } from 'lib';" },
   Unbound:   { open: 'Unbound', kind: 'component', type: () => 'resolved:Unbound' },
@@ -142,7 +143,8 @@ const isText = (k) => CHILDREN[k].text !== undefined;
 function optsJson(o) {
   const j = {};
   for (const k of ['mergeProps', 'transformOn', 'optimize', 'enableObjectSlots', 'resolveType']) if (o[k] !== undefined) j[k] = o[k];
-  if (o.pattern) j.customElementPatterns = ['^i-'];
+  // pattern: true = one matching pattern; 2 = only the second pattern of the list matches (and only through regex syntax)
+  if (o.pattern) j.customElementPatterns = o.pattern === 2 ? ['^zzz$', '-ic[o0]n$'] : ['^i-'];
   if (o.pragma) j.pragma = o.pragma;
   return JSON.stringify(j);
 }
